@@ -38,6 +38,10 @@ fn vp_trap() -> !
     requires false,
 { panic!() }
 
+// R1: format!(..) of a returned message => an opaque string
+#[verifier::external_body]
+fn vp_format() -> String { unimplemented!() }
+
 fn vp_assert(b: bool)
     requires b,
 {}
